@@ -51,7 +51,7 @@ pub fn run(rep: &Report) -> i32 {
         }
         rep.state();
         judge(rep, &text, &v, "base", name);
-        let ms = mutate::near_misses(base);
+        let ms = mutate::near_misses_for(name, base, rep.is_quick());
         rep.transition(ms.len() as u64);
         for (op, m) in ms {
             if rep.out_of_time() {
